@@ -233,13 +233,18 @@ def run_impl(modname, fam, cases):
     family_hangs = [0]      # cases of this family that hung on their own, over all shards
 
     def do(shard):
-        if family_hangs[0] >= 4:
+        if family_hangs[0] >= 3:
             # this tree hangs the family's harness again and again: report what was seen, do not wait for the rest
-            return [{"driver_crash": "not run: four cases of this family already hung", "hang": True} for _ in shard]
+            return [{"driver_crash": "not run: three cases of this family already hung", "hang": True} for _ in shard]
         # a healthy shard takes seconds; the cap bounds what a hard-hung worker (a tree that dead-locks outside the scheduler's view) costs
         obs, err = _run_impl_shard(modname, fam, shard, min(fam.case_timeout * len(shard) + 30, max(420, fam.case_timeout + 30)))
         if obs is not None:
             return obs
+        if len(shard) == 1:
+            # a single-case shard that timed out IS the culprit: no second attempt
+            if err == "timeout":
+                family_hangs[0] += 1
+            return [{"driver_crash": err, "hang": err == "timeout"}]
         # isolate the culprit(s); once two cases have hung on their own the rest of the shard is not retried
         # one by one (a tree on which everything hangs would otherwise take hours to report the obvious)
         out = []
